@@ -48,6 +48,11 @@ def plan(tier, seed):
     for i in range(k):
         specs.append({'kind': 'consumer', 'count': 400 if tier == 'quick' else 2500})
     specs.append({'kind': 'via_writer', 'count': 60 if tier == 'quick' else 400})
+    specs.append({'kind': 'via_writer', 'count': 40 if tier == 'quick' else 300, 'resave': True})
+    lens = [32767, 32768, 32769, 40000, 49152, 65535] if tier == 'quick' else [32766, 32767, 32768, 32769, 33000, 36864, 40000, 49151, 49152,
+                                                                             57344, 65534, 65535]
+    for i, L in enumerate(lens):
+        specs.append({'kind': 'long', 'length': L, 'producer': tier == 'thorough' or i % 2 == 1})
     # the same monitors with assertions compiled out (python -O / PYTHONOPTIMIZE=1)
     specs.append({'kind': 'soup', 'count': 30, 'maxlen': 1500, 'pyopt': True})
     specs.append({'kind': 'consumer', 'count': 300, 'pyopt': True})
@@ -319,6 +324,26 @@ def run_shard(spec, ctx):
             check_producer(ctx, t, 'update60', compress, p8png)
             if i == 0:
                 ctx.sample({'update60_text': t[:100]})
+    elif kind == 'long':
+        # texts whose 16-bit length header has its top bit set (32768..65535 characters): repetitive enough to fit the code area
+        L = spec['length']
+        unit = b'data_%d={%s}\n' % (rng.randrange(10), b','.join(b'%d' % rng.randrange(7) for _ in range(rng.randint(10, 30))))
+        t = (unit * (L // len(unit) + 1))[:L - 1] + b'\n'
+        assert len(t) == L and in_domain(t)
+        ctx.feature('long_text_cases')
+        if L >= 32768:
+            ctx.feature('header_length_top_bit_set')
+        for variant in ('greedy', 'random'):
+            items = rc.c_greedy(t) if variant == 'greedy' else rc.c_random_items(t, rng, p_ref=0.97)
+            if 8 + len(rc.c_encode_items(items)) > rc.CODE_SIZE:
+                ctx.feature('long_stream_does_not_fit')
+                continue
+            check_consumer(ctx, t, items, compress, 'long-' + variant)
+            ctx.monitor('long_streams_compared')
+        if spec.get('producer'):
+            check_producer(ctx, t, 'long', compress, p8png)
+            ctx.monitor('long_texts_compressed')
+        ctx.sample({'long_text_length': L, 'unit': unit})
     elif kind == 'via_writer':
         # the compressed code area as the cart writer produces it (P8PNGFormatter.to_file), read back from the PNG by the
         # reference readers
@@ -333,16 +358,39 @@ def run_shard(spec, ctx):
                 continue
             regions, _ = carts.random_regions(rng, 'zero')
             case = {'kind': 'producer', 'text': t, 'tag': 'via_writer'}
-            ctx.case(t + b'#writer')
+            ctx.case(t + b'#writer' + (b'#resave' if spec.get('resave') else b''))
             try:
                 buf = io.BytesIO()
-                P8PNGFormatter.to_file(carts.make_game(regions, code=t, version=8), buf)
+                g = carts.make_game(regions, code=t, version=8)
+                if spec.get('resave'):
+                    # HISTORY: the Game object was saved (or measured) before; its Lua object is then changed in place and the cart
+                    # is saved again.  The code area has to hold the code the cart has now.
+                    how = ('saved_before', 'measured_before', 'both')[i % 3]
+                    if how != 'measured_before':
+                        P8PNGFormatter.to_file(g, io.BytesIO())
+                    if how != 'saved_before':
+                        g.get_compressed_size()
+                    more = carts.simple_lua(rng, rng.choice((60, 400, 1500)))
+                    change = 'update_from_lines' if i % 5 else 'reparse'
+                    if change == 'reparse':
+                        g.lua.reparse()
+                    else:
+                        g.lua.update_from_lines([more])
+                    t = b''.join(g.lua.to_lines())
+                    case = {'kind': 'producer', 'text': t, 'tag': 'via_writer', 'history': '%s, then Lua.%s in place, then saved' % (how, change)}
+                    ctx.feature('resaved_after_in_place_%s' % change)
+                    if not in_domain(t):
+                        continue
+                P8PNGFormatter.to_file(g, buf)
                 area = rc.read_p8png(buf.getvalue())['code_area']
             except Exception as e:
                 ctx.violation('cart writer raised %r' % (e,), case)
                 continue
             if bytes(area[:4]) != rc.C_HEADER:
                 ctx.feature('writer_stored_raw')
+                raw = bytes(area).split(b'\x00', 1)[0]
+                if spec.get('resave') and raw != t:
+                    ctx.violation('code area written raw by the cart writer holds %d bytes, the code has %d' % (len(raw), len(t)), case)
                 continue
             ctx.monitor('writer_areas_decoded')
             got, problems = rc.c_decode(area)
@@ -406,6 +454,12 @@ def gates(m, tier):
         missed.append('monitors saw too few events')
     if mon.get('writer_areas_decoded', 0) < 30:
         missed.append('code areas written by the cart writer decoded: %d' % mon.get('writer_areas_decoded', 0))
+    if f.get('header_length_top_bit_set', 0) < 4 or mon.get('long_streams_compared', 0) < 6 or mon.get('long_texts_compressed', 0) < 2:
+        missed.append('texts of 32768..65535 characters: %d (streams compared %d, compressed by picotool %d)' % (
+            f.get('header_length_top_bit_set', 0), mon.get('long_streams_compared', 0), mon.get('long_texts_compressed', 0)))
+    if f.get('resaved_after_in_place_update_from_lines', 0) < 10 or f.get('resaved_after_in_place_reparse', 0) < 3:
+        missed.append('re-save histories: update_from_lines %d, reparse %d' % (f.get('resaved_after_in_place_update_from_lines', 0),
+                                                                            f.get('resaved_after_in_place_reparse', 0)))
     if f.get('optimized_interpreter_shards', 0) < 3:
         missed.append('shards under python -O: %d' % f.get('optimized_interpreter_shards', 0))
     if mon.get('writer_packaging_compared', 0) < 50:
